@@ -751,6 +751,21 @@ func (g *vcgen) special(v ssa.Value, fn *ssa.Function, args []string, c *ssa.Cal
 	pkg := pkgPathOf(fn)
 	switch name {
 	case "(*sync.Mutex).Lock", "(*sync.RWMutex).Lock", "(*sync.RWMutex).RLock":
+		if gl, ok := c.Args[0].(*ssa.Global); ok && g.eng.isGlobalLock(gl) {
+			g.stateVar(globalHeldVar(gl), "Bool")
+			g.set(globalHeldVar(gl), "true")
+			// what the lock protects may have been changed by other holders
+			for _, d := range g.eng.DB.GlobalLocks {
+				if d.Pkg == gl.Pkg.Pkg.Path() && d.Lock == gl.Name() {
+					if pv := gl.Pkg.Var(d.Var); pv != nil {
+						vn := g.globalVarName(pv)
+						g.stateVar(vn, g.s.sortOf(pv.Type().Underlying().(*types.Pointer).Elem()))
+						g.havocNamed(vn)
+					}
+				}
+			}
+			return nil, true
+		}
 		if mon, obj := g.monitorFor(c.Args[0], false); mon != nil {
 			g.monLock(mon, obj)
 		} else {
@@ -758,6 +773,11 @@ func (g *vcgen) special(v ssa.Value, fn *ssa.Function, args []string, c *ssa.Cal
 		}
 		return nil, true
 	case "(*sync.Mutex).Unlock", "(*sync.RWMutex).Unlock", "(*sync.RWMutex).RUnlock":
+		if gl, ok := c.Args[0].(*ssa.Global); ok && g.eng.isGlobalLock(gl) {
+			g.stateVar(globalHeldVar(gl), "Bool")
+			g.set(globalHeldVar(gl), "false")
+			return nil, true
+		}
 		if mon, obj := g.monitorFor(c.Args[0], false); mon != nil {
 			g.monUnlock(mon, obj, g.callSite("Unlock"))
 		}
@@ -1298,7 +1318,10 @@ func (g *vcgen) applyContract(fc *FuncContract, fn *ssa.Function, sig *types.Sig
 	if len(fc.Ensures) > 0 {
 		g.cover("before:"+site, "true")
 	}
-	for _, e := range fc.Ensures {
+	for i, e := range fc.Ensures {
+		if g.eng.NotAssumed[calleeShort+"/post("+clauseLabel(e, i)+")"] {
+			continue // a recorded finding: the clause is known not to hold, nobody may rely on it
+		}
 		t, err := envPost.EvalBool(e.Expr)
 		if err != nil {
 			if strings.Contains(err.Error(), "the event never occurs in this function") {
